@@ -1,0 +1,67 @@
+#!/usr/bin/env python
+# -*- coding: UTF-8 -*-
+
+# Copyright (c) 2020, Sandflow Consulting LLC
+#
+# Redistribution and use in source and binary forms, with or without
+# modification, are permitted provided that the following conditions are met:
+#
+# 1. Redistributions of source code must retain the above copyright notice, this
+#    list of conditions and the following disclaimer.
+# 2. Redistributions in binary form must reproduce the above copyright notice,
+#    this list of conditions and the following disclaimer in the documentation
+#    and/or other materials provided with the distribution.
+#
+# THIS SOFTWARE IS PROVIDED BY THE COPYRIGHT HOLDERS AND CONTRIBUTORS "AS IS" AND
+# ANY EXPRESS OR IMPLIED WARRANTIES, INCLUDING, BUT NOT LIMITED TO, THE IMPLIED
+# WARRANTIES OF MERCHANTABILITY AND FITNESS FOR A PARTICULAR PURPOSE ARE
+# DISCLAIMED. IN NO EVENT SHALL THE COPYRIGHT OWNER OR CONTRIBUTORS BE LIABLE FOR
+# ANY DIRECT, INDIRECT, INCIDENTAL, SPECIAL, EXEMPLARY, OR CONSEQUENTIAL DAMAGES
+# (INCLUDING, BUT NOT LIMITED TO, PROCUREMENT OF SUBSTITUTE GOODS OR SERVICES;
+# LOSS OF USE, DATA, OR PROFITS; OR BUSINESS INTERRUPTION) HOWEVER CAUSED AND
+# ON ANY THEORY OF LIABILITY, WHETHER IN CONTRACT, STRICT LIABILITY, OR TORT
+# (INCLUDING NEGLIGENCE OR OTHERWISE) ARISING IN ANY WAY OUT OF THE USE OF THIS
+# SOFTWARE, EVEN IF ADVISED OF THE POSSIBILITY OF SUCH DAMAGE.
+
+"""Invisible content filter"""
+
+import logging
+
+from ttconv.filters.isd_filter import ISDFilter
+from ttconv.isd import ISD
+from ttconv.model import ContentElement, Text
+from ttconv.style_properties import StyleProperties, VisibilityType
+
+LOGGER = logging.getLogger(__name__)
+
+
+class InvisibleContentISDFilter(ISDFilter):
+  """Filter that removes content that is presented but not visible: text whose computed
+  tts:visibility is hidden and regions whose computed tts:opacity is 0"""
+
+  def _process_element(self, element: ContentElement):
+    """Removes hidden text from the element and its descendants"""
+
+    for child in list(element):
+
+      if isinstance(child, Text):
+
+        if element.get_style(StyleProperties.Visibility) is VisibilityType.hidden:
+          element.remove_child(child)
+
+      else:
+
+        self._process_element(child)
+
+  def process(self, isd: ISD):
+    """Removes invisible content from the ISD"""
+    LOGGER.debug("Apply invisible content filter to ISD.")
+
+    for region in list(isd.iter_regions()):
+
+      if region.get_style(StyleProperties.Opacity) == 0:
+        isd.remove_region(region.get_id())
+        continue
+
+      for body in region:
+        self._process_element(body)
